@@ -214,7 +214,7 @@ func init() {
 			return s
 		},
 		Run:  c05Run,
-		Rule: "compositions wrapper^d ∘ statement-form ∘ expression-context^e ∘ failing-atom framed by literal text A…B: 14 block wrappers (top, if, else, for over a slice / an Iterator / a map, fn body, helper block, contentFor→contentOf plain / with a default block / with data, contentOf default block, partial body, layout), 12 statement forms (emit, silent, let, assign, if/else-if condition, for iterable, return, partial/contentOf data), 38 expression contexts (each operand side of all 13 binary operators, !, array/hash element, index container/index, Go-helper/user-fn/method argument), 19 failing atoms (helper returning (T,err)/(err), method returning (T,err), failing helper/method as head of a .field/.method()/[i] chain, type error, index out of range, division by zero — each with a recording call so 'reached' is measured — unknown identifier, unknown function, unknown identifier as argument, unknown identifier inside a partial / a helper-rendered template, a method that does not exist on a pointer / value receiver). Oracle when the failing site was reached: err != nil, output empty, errors.Is(err, sentinel) for helper failures; an unknown identifier is tolerated exactly as direct condition or direct operand of ! == != && || and fails everywhere else. (special) assignments that cannot be carried out (to a field path, with or without a variable named like its last segment, nested, inside a block / function; to unknown variables; out of range) fail the render. Non-trivial: the failing site was reached (counted).",
+		Rule: "compositions wrapper^d ∘ statement-form ∘ expression-context^e ∘ failing-atom framed by literal text A…B: 14 block wrappers (top, if, else, for over a slice / an Iterator / a map, fn body, helper block, contentFor→contentOf plain / with a default block / with data, contentOf default block, partial body, layout), 12 statement forms (emit, silent, let, assign, if/else-if condition, for iterable, return, partial/contentOf data), 38 expression contexts (each operand side of all 13 binary operators, !, array/hash element, index container/index, Go-helper/user-fn/method argument), 19 failing atoms (helper returning (T,err)/(err), method returning (T,err), failing helper/method as head of a .field/.method()/[i] chain, type error, index out of range, division by zero — each with a recording call so 'reached' is measured — unknown identifier, unknown function, unknown identifier as argument, unknown identifier inside a partial / a helper-rendered template, a method that does not exist on a pointer / value receiver). Oracle when the failing site was reached: err != nil, output empty, errors.Is(err, sentinel) for helper failures; an unknown identifier is tolerated exactly as direct condition or direct operand of ! == != && || and fails everywhere else. (special) one call node evaluated with callees of different signatures (loop over a mixed slice of functions, consecutive executions with the helper rebound): the failing one fails the render; assignments that cannot be carried out (to a field path, with or without a variable named like its last segment, nested, inside a block / function; to unknown variables; out of range) fail the render. Non-trivial: the failing site was reached (counted).",
 		Bound: func(th bool) string {
 			if th {
 				return "d<=2 wrappers, e<=2 expression contexts"
@@ -356,6 +356,63 @@ func c05Special(t *engine.T) {
 		{"assignment to an unknown variable", `A<% zz = 1 %>B`},
 		{"assignment to an index of an unknown variable", `A<% zz[0] = 1 %>B`},
 		{"assignment to an index out of range", `A<% one[5] = 1 %>B`},
+	}
+	// one call node, callees of different signatures: the failing one fails the render whatever ran before it
+	okS := func() string { return "a" }
+	okSE := func() (string, error) { return "b", nil }
+	bad := func() (string, error) { return "c", ErrSentinel }
+	badE := func() error { return ErrSentinel }
+	seqs := []struct {
+		name string
+		fs   []interface{}
+	}{
+		{"string then (string, error)", []interface{}{okS, bad}}, {"(string, nil) then (string, error)", []interface{}{okSE, bad}},
+		{"string twice then error", []interface{}{okS, okS, badE}}, {"(string, error) first", []interface{}{bad, okS}},
+		{"string, (string, nil), string, (string, error)", []interface{}{okS, okSE, okS, bad}},
+	}
+	for _, sq := range seqs {
+		sq := sq
+		for _, form := range []string{`A<%= for (f) in fs { %>[<%= f() %>]<% } %>B`, `A<%= for (f) in fs { %><% let r = f() %>[<%= r %>]<% } %>B`, `A<%= for (f) in fs { %>[<%= idv(f)() %>]<% } %>B`} {
+			form := form
+			t.Case("special one call node "+sq.name+" "+q(form), true, func() (string, *engine.Fail) {
+				e := &c05Env{partials: map[string]string{}}
+				ctx := e.context()
+				ctx.Set("fs", sq.fs)
+				ctx.Set("idv", func(v interface{}) interface{} { return v })
+				out, err := Render(form, ctx)
+				if err == nil {
+					return "", engine.Failf("swallowed", "a function of the sequence returned an error but Render succeeded with %q", out)
+				}
+				if !errors.Is(err, ErrSentinel) || out != "" {
+					return "", engine.Failf("not-wrapped", "error %v / output %q", err, out)
+				}
+				return "failed-as-required", nil
+			})
+		}
+		// the same through consecutive executions of one parsed template with the name rebound
+		t.Case("special one call node, consecutive executions "+sq.name, true, func() (string, *engine.Fail) {
+			plush.CacheEnabled = false
+			tm, err := plush.NewTemplate(`A<%= h() %>B`)
+			if err != nil {
+				return "", engine.Failf("harness", "%v", err)
+			}
+			for i, f := range sq.fs {
+				ctx := plush.NewContext()
+				ctx.Set("h", f)
+				out, err := tm.Exec(ctx)
+				failing := i == len(sq.fs)-1
+				if sq.name == "(string, error) first" {
+					failing = i == 0
+				}
+				if failing && (err == nil || !errors.Is(err, ErrSentinel) || out != "") {
+					return "", engine.Failf("swallowed", "execution %d: the helper returned an error, Exec returned %q / %v", i+1, out, err)
+				}
+				if !failing && err != nil {
+					return "", engine.Failf("mismatch", "execution %d: unexpected error %v", i+1, err)
+				}
+			}
+			return "failed-as-required", nil
+		})
 	}
 	for _, c := range cases {
 		c := c
